@@ -173,8 +173,12 @@ func LoadProgram(repo, mirror string) (*Program, error) {
 		// a contract whose clauses no longer type-check against the code (the function's signature or
 		// the fields it mentions changed) is stale: drop it, record it, and try again
 		stale := staleOwners(err.Error(), synth, specIndex)
-		if len(stale) == 0 {
+		unused := unusedImports(err.Error())
+		if len(stale) == 0 && len(unused) == 0 {
 			break
+		}
+		for _, k := range unused {
+			skipImports[k] = true
 		}
 		for _, k := range stale {
 			if c := cs.Funcs[k]; c != nil {
@@ -316,6 +320,9 @@ var knownImports = map[string]string{
 	"strings": "strings", "fmt": "fmt", "regexp": "regexp", "filepath": "path/filepath", "sort": "sort",
 	"packages": "golang.org/x/tools/go/packages", "os": "os", "flag": "flag", "bytes": "bytes", "bufio": "bufio",
 }
+
+// imports that turned out to be unused in a synthetic file (a local variable shadows the package name)
+var skipImports = map[string]bool{}
 
 const ghostPrelude = `
 // ghost vocabulary (never executed)
@@ -548,7 +555,7 @@ func synthesize(prog *Program) (map[string]string, map[string]*SpecFn, error) {
 		body := b.String()
 		var imps []string
 		for name, path := range knownImports {
-			if path == p.PkgPath {
+			if path == p.PkgPath || skipImports[short+"|"+path] {
 				continue
 			}
 			if strings.Contains(body, name+".") {
@@ -876,5 +883,23 @@ func staleOwners(errText string, synth map[string]string, index map[string]*Spec
 		out = append(out, k)
 	}
 	sort.Strings(out)
+	return out
+}
+
+// unusedImports: "<short>|<import path>" for `"path" imported and not used` errors in synthetic files
+func unusedImports(errText string) []string {
+	re := regexp.MustCompile(`([^\s:]+)/zz_spec_synth_verif\.go:\d+:\d+: "([^"]+)" imported and not used`)
+	var out []string
+	for _, m := range re.FindAllStringSubmatch(errText, -1) {
+		dir := m[1]
+		short := "goverter"
+		best := 0
+		for d, sh := range pkgDirs {
+			if d != "." && strings.HasSuffix(dir, "/"+d) && len(d) > best {
+				short, best = sh, len(d)
+			}
+		}
+		out = append(out, short+"|"+m[2])
+	}
 	return out
 }
